@@ -46,8 +46,15 @@ def cached_returns_list(n):
     return [n]
 
 
+def extends_alias_in_place(x):
+    seen = _seen
+    seen += [x]
+    return len(seen)
+
+
 def entry(xs):
     Holder()
+    extends_alias_in_place(0)
     appends_module_list(1)
     fills_module_memo(2)
     mutable_default(3)
